@@ -14,8 +14,8 @@ SPEC = {
             "solutions still queued); a small slice uses real 1-2 s timeouts. History checker: every outcome in {tree, "
             "StopIteration, TimeoutError}; after the first StopIteration only StopIteration; after the first TimeoutError only "
             "TimeoutError. distinct = distinct (family, formula skeleton, outcome-kind sequence)",
-    "minimum": {"quick": {"histories": 250, "calls": 1500, "ended_stop": 50, "ended_timeout": 60, "histories_with_3_trees": 80, "virtual_timeouts": 40,
-                          "timeout_with_solutions_before": 10},
+    "minimum": {"quick": {"histories": 120, "calls": 800, "ended_stop": 30, "ended_timeout": 25, "histories_with_3_trees": 50, "virtual_timeouts": 20,
+                          "timeout_with_solutions_before": 5},
                 "thorough": {"histories": 5000, "ended_stop": 1000, "ended_timeout": 1000, "histories_with_3_trees": 1500}},
     "assumptions": ["constraints rejected by the constructor / parse_isla are not histories of solve()", "a watchdog kill is inconclusive",
                     "the virtual clock represents time.time() as used by ISLaSolver.solve (checked against a real-time slice)"],
@@ -40,8 +40,8 @@ def drive(ctx, fam, gname, f, st, seed, vstep, real_timeout, ncalls):
                 hist.append(("tree", None))
             except StopIteration:
                 hist.append(("stop", None))
-            except TimeoutError:
-                hist.append(("timeout", None))
+            except TimeoutError as e:
+                hist.append(("timeout", e.args[0] if e.args else None))     # ISLa raises TimeoutError(self.timeout_seconds)
             except Exception as e:
                 from islamon.worker import exc_site, Watchdog
                 if "Watchdog" in repr(e):   # the alarm fired inside a ctypes callback and was wrapped (ctypes.ArgumentError)
@@ -88,10 +88,12 @@ def drive(ctx, fam, gname, f, st, seed, vstep, real_timeout, ncalls):
         later = kinds[first_term + 1:]
         if any(k != term for k in later):
             key = None
-            if term == "timeout" and st.get("activate_unsat_support") and (all(k == "stop" for k in later) or (vstep is None and real_timeout is None)):
+            nested_escape = hist[first_term][1] == 2 and tmo != 2    # the nested unsat check's private timeout_seconds = 2
+            if term == "timeout" and st.get("activate_unsat_support") and (nested_escape or all(k == "stop" for k in later) or (vstep is None and real_timeout is None)):
                 # the 2-second timeout of the nested unsat check (process_new_state) escapes as the user's TimeoutError; the
                 # queue copy restored afterwards no longer holds the popped state, so the next call finds it empty. When no
-                # timeout was configured at all, a TimeoutError can only be that nested check's, whatever follows it
+                # timeout was configured at all, or when the error carries the nested check's own limit (2) instead of the
+                # configured one, the TimeoutError can only be that nested check's, whatever follows it
                 key = "C02:unsat-support:nested-check-timeout-escapes-then-StopIteration"
             ctx.violation(key, f"after the first {term} (call #{first_term + 1}) later calls gave {later}", wit)
             bad = True
@@ -127,7 +129,7 @@ def run(ctx):
         if x < 0.45:
             vstep = 100.0 / rng.choice([1, 2, 3, 5, 8, 13, 21, 34, 55, 89, 144, 200])
         elif x < 0.5:
-            real = rng.choice([1, 2])
+            real = rng.choice([1, 3])       # never 2: that value identifies the nested unsat check's own timeout
         drive(ctx, fam, gname, f, SC.settings(rng, unsat=0.3), rng.randrange(10 ** 6), vstep, real, ncalls)
 
 
